@@ -163,3 +163,24 @@ def flat_picture(mode, ptype, w, h, tr, value, quant=5, residual=None):
             mb = {"kind": "coded", "type": S.INTER, "cbp": cbp, "mvd": (0, 0), "blocks": [(None, ev)] + [(None, [])] * 5}
         b.extend(S.macroblock_bits(pt, mb, mode))
     return b
+
+
+def history_prefix(rng, mode, w, h):
+    """Decode calls that an INTRA picture of size w x h decoded afterwards must not depend on: nothing (half the time),
+    pictures of another size, a rejected delivery, an earlier intra / predicted pair of the same size.  Returns a list
+    of byte strings (one decode call each)."""
+    k = rng.below(8)
+    if k < 4:
+        return []
+    ow, oh = rng.choice([(16, 16), (32, 16), (w + 16, h), (w, h + 16), (max(1, w - 1), h)])
+    if mode == "std":
+        ow, oh = max(4, (ow + 3) // 4 * 4), max(4, (oh + 3) // 4 * 4)
+    other_i = gen_picture(rng, mode, "I", ow, oh, sparse=2, quant=rng.range(1, 31))[0].to_bytes()
+    if k == 4:
+        return [other_i]
+    if k == 5:
+        return [other_i, gen_picture(rng, mode, "P", ow, oh, sparse=2)[0].to_bytes()]
+    if k == 6:
+        return [other_i, bytes([0, 0, 0x80 | rng.below(4)]) + rng.bytes(6)]      # a start code followed by noise: rejected or tiny
+    same_i = gen_picture(rng, mode, "I", w, h, sparse=2)[0].to_bytes()
+    return [same_i, gen_picture(rng, mode, "P", w, h, sparse=2)[0].to_bytes()]
